@@ -33,6 +33,7 @@ class Spec:
     oracle_filter = None          # names of the oracles that decide THIS property (None = all)
     raw_compare = True            # model result must equal the implementation's result token for token
     no_compare_ops = ()           # ops judged by oracles only (no model result to compare)
+    confirm_timing = False        # failures whose reason depends on wall-clock time are re-measured alone before they count
 
     def batches(self, rng, tier):
         raise NotImplementedError
@@ -47,6 +48,9 @@ class Spec:
     def known_key(self, case, res):
         """Return the key of the known finding this failing case belongs to, or None."""
         return None
+
+    def is_timing_reason(self, why):
+        return False
 
     def shrink(self, case):
         """Yield smaller variants of a failing case (optional)."""
@@ -238,6 +242,31 @@ def main_check(spec, tier, replay=None):
             except Broken as e:
                 corr_err = e
                 log("CORRESPONDENCE BROKEN:", e.what, "\n", e.detail[-3000:])
+        # ---- 3b. timing-based failures are measured again, one case at a time on an otherwise idle harness: a slow answer
+        #          under 12 parallel shards (or a loaded machine) is not a slow program
+        if spec.confirm_timing and report.failures and binary:
+            kept = []
+            for (c, r, why) in report.failures:
+                if not spec.is_timing_reason(why) or len(kept) > 30:
+                    kept.append((c, r, why))
+                    continue
+                b0 = c.meta.get("_batch")
+                sub = Report()
+                nb = Batch("confirm", [c], config=b0.config if b0 else None, env=b0.env if b0 else {}, timeout=min(b0.timeout, 600) if b0 else 600,
+                           correspondence=b0.correspondence if b0 else "")
+                nb.parallel = False
+                try:
+                    run_batches(spec, scratch, binary, [nb], sub)
+                except Broken:
+                    kept.append((c, r, why))
+                    continue
+                if sub.failures:
+                    c2, r2, why2 = sub.failures[0]
+                    c2.meta["_batch"] = b0
+                    kept.append((c2, r2, why2 + " (measured again alone)"))
+                else:
+                    report.count("timing-not-reproduced")
+            report.failures = kept
         # ---- 4. decide
         known, _fixed = load_known()
         known_keys = {k["key"]: k for k in known if k["property"] == spec.pid}
